@@ -331,6 +331,13 @@ func (bucket *Bucket) _db() queryable {
 
 // Runs a function within a SQLite transaction.
 func (bucket *Bucket) inTransaction(fn func(txn *sql.Tx) error) error {
+	return bucket.inTransactionThen(fn, nil)
+}
+
+// Runs a function within a SQLite transaction. If the transaction commits, `committed` (if non-nil)
+// is called before the bucket mutex is released, so that whatever it publishes (feed events) is
+// published in the order in which the transactions committed.
+func (bucket *Bucket) inTransactionThen(fn func(txn *sql.Tx) error, committed func()) error {
 	// SQLite allows only a single writer, so use a mutex to avoid BUSY and LOCKED errors.
 	// However, these errors can still occur (somehow?), so we retry if we get one.
 	// --Update, 25 July 2023: After adding "_txlock=immediate" to the DB options when opening,
@@ -374,6 +381,9 @@ func (bucket *Bucket) inTransaction(fn func(txn *sql.Tx) error) error {
 			warn("Transaction: COMMIT successful on attempt #%d", attempt+1)
 		}
 		break
+	}
+	if err == nil && committed != nil {
+		committed()
 	}
 	return remapError(err)
 }
